@@ -390,7 +390,23 @@ func extractEOF(c *core.Ctx, R string, m *scanModel, pkgRel, recv string) ([]eof
 		c.Unresolved(R, "(*"+pkgRel+"."+recv+").Next")
 		return nil, false
 	}
-	in := absint.New(absint.Config{InModule: c.P.FuncInModule, Inline: func(f *ssa.Function) bool { return f.Name() == "processTail" }, SelfBases: map[string]bool{"s": true}})
+	in := absint.New(absint.Config{InModule: c.P.FuncInModule, Inline: func(f *ssa.Function) bool {
+		if f.Name() == "processTail" {
+			return true
+		}
+		// a helper that only builds the end-of-input error and panics
+		if f.Blocks == nil || !c.P.FuncInScope(f) {
+			return false
+		}
+		for _, b := range f.Blocks {
+			if len(b.Instrs) > 0 {
+				if _, isRet := b.Instrs[len(b.Instrs)-1].(*ssa.Return); isRet {
+					return false
+				}
+			}
+		}
+		return true
+	}, SelfBases: map[string]bool{"s": true}})
 	outs := in.Run(next, []absint.Val{absint.Ptr{Base: "s"}}, nil)
 	// lexemes a case of the end-of-input switch puts into the pending list (s.found(K)) before it
 	// returns processingFoundLexeme(L): the following calls of Next emit them after L
